@@ -71,7 +71,7 @@ pub fn spec(prop: &str) -> Option<CheckSpec> {
             level: "exploration",
             rule: "Each run: 2-6 simulated caller tasks, each with its own program over its own instances (hasher histories through update/Write/Read adapters, XOF reader histories with seeks, one-shot calls), each task forced to its own SIMD level, interleaved by the baton scheduler at every kernel dispatch, detect() call, reader call and operation boundary (uniform / sticky / bursty schedules). Oracle (Solo): every task program is also executed alone and every operation must return the same bytes under interleaving; the per-operation oracles of C02/C03 apply as well. distinct_nontrivial = distinct schedule signatures + state shapes.",
             families: vec![
-                Family { name: "c18", gen: gen::c18, quick: 40_000, thorough: 1_500_000, judge: Judge::Solo },
+                Family { name: "c18", gen: gen::c18, quick: 25_000, thorough: 1_500_000, judge: Judge::Solo },
                 Family { name: "c18-mixed-c", gen: gen::c18_mixed, quick: 30_000, thorough: 1_000_000, judge: Judge::Solo },
                 Family { name: "c18-streams", gen: gen::c18_streams, quick: 400, thorough: 15_000, judge: Judge::Solo },
                 Family { name: "c18-firstuse", gen: gen::c18_firstuse, quick: 480, thorough: 20_000, judge: Judge::FirstUse },
